@@ -169,6 +169,10 @@ fn explain_output_diff(
                 cause = "generic-definer-not-reemitted".into();
             }
         }
+        if src.is_none() && k.starts_with("dependencies/") && since.format_changed && kind != "filelist" {
+            // $std outputs have no source in the model; they are never edited
+            cause = "format-section-not-in-cache-key".into();
+        }
         if since.opts_then_hashed && kind != "filelist" {
             // also covers $std outputs, which have no source in the model
             cause = "check-stored-entry-trusted-by-build".into();
@@ -282,6 +286,8 @@ fn one_history(d: &mut Draw, thorough: bool) -> Outcome {
     };
     let mut p = gen_project(d, &gopts);
     p.cfg.incremental = true;
+    // half of the projects get a "warning in A caused by B" hook (clean as generated)
+    let hook = if d.chance(1, 2) { vproj::genp::add_cross_warning_hook(d, &mut p) } else { None };
     let ws = Workspace::new("c04", &p.cfg.name);
     let mut ed = Editor::create(&p, &ws);
     let initial = p.summary();
@@ -299,12 +305,86 @@ fn one_history(d: &mut Draw, thorough: bool) -> Outcome {
     let mut check_pending = false; // a check ran since the last build
     let mut first_cmd = true;
     let mut warm_cmds = 0usize;
+    // "warning in A through a change in B" pair: None, or what was changed in B
+    let mut cross: Option<EditOp> = None; // the REMOVAL operation to apply later
+    let mut cross_cached = false; // a command ran while the cross warning was present
+    let mut forced_cmds = 0usize; // commands that must follow without an edit in between
+    let mut prefer_check = false;
+    let mut last_was_cmd = false;
 
-    for i in 0..n_steps {
-        let is_cmd = i == 0 || i + 1 == n_steps || d.chance(2, 5);
+    let mut i = 0usize;
+    while (i < n_steps || forced_cmds > 0) && i < n_steps + 3 {
+        let is_cmd = forced_cmds > 0 || i == 0 || i + 1 >= n_steps || d.chance(2, 5);
+        i += 1;
         if !is_cmd {
-            let op = ed.draw(d, &p, &ws, &pol);
+            last_was_cmd = false;
+            // a pending port-pair is void once the users were rewritten
+            if let Some(EditOp::RemovePort { module }) = &cross {
+                let users_dirty = p
+                    .users_of(*module)
+                    .iter()
+                    .filter_map(|u| p.file_of(*u))
+                    .any(|f| ed.dirty(&p).contains(&f));
+                if !users_dirty {
+                    cross = None;
+                    cross_cached = false;
+                }
+            }
+            let mut pair_class: Option<&str> = None;
+            let op = if cross.is_some() && cross_cached && d.chance(1, 2) {
+                pair_class = Some("cross_warning_removed_through_B");
+                cross.take().unwrap()
+            } else if cross.is_none() && !Editor::has_injected_error(&p) && ed.dirty(&p).is_empty() && d.chance(1, 3) {
+                // candidates: the hook constant (still 1), or a module that files other than its own instantiate
+                let mut cands: Vec<(EditOp, EditOp)> = vec![];
+                if let Some((q, k)) = hook
+                    && p.file_of(q).is_some()
+                    && p.pkg(q).consts[k].val == vproj::model::ConstVal::Lit(1)
+                {
+                    cands.push((
+                        EditOp::SetConst { pkg: q, idx: k, val: 2 },
+                        EditOp::SetConst { pkg: q, idx: k, val: 1 },
+                    ));
+                }
+                for m in p.modules() {
+                    let Some(fm) = p.file_of(m) else { continue };
+                    let md = p.module(m);
+                    if md.ins.len() >= 4 {
+                        continue;
+                    }
+                    let cross_user = p.users_of(m).iter().any(|u| {
+                        matches!(p.items[*u].kind, vproj::model::ItemKind::Module(_))
+                            && p.file_of(*u).is_some_and(|f| f != fm)
+                    });
+                    if cross_user {
+                        cands.push((
+                            EditOp::AddPort { module: m, with_default: false, consistent: false },
+                            EditOp::RemovePort { module: m },
+                        ));
+                    }
+                }
+                if cands.is_empty() {
+                    ed.draw(d, &p, &ws, &pol)
+                } else {
+                    let (intro, removal) = cands[d.below_usize(cands.len())].clone();
+                    cross = Some(removal);
+                    cross_cached = false;
+                    pair_class = Some("cross_warning_introduced_through_B");
+                    intro
+                }
+            } else {
+                ed.draw(d, &p, &ws, &pol)
+            };
             let a = ed.apply(d, &mut p, &ws, &op, &pol);
+            if let Some(c) = pair_class {
+                classes.insert(c.to_string());
+                if c == "cross_warning_introduced_through_B" {
+                    forced_cmds = 1;
+                } else {
+                    forced_cmds = 2;
+                    prefer_check = true;
+                }
+            }
             edits += 1;
             for c in &a.classes {
                 classes.insert(c.to_string());
@@ -344,8 +424,22 @@ fn one_history(d: &mut Draw, thorough: bool) -> Outcome {
             steps.push(format!("edit  {}", a.desc));
             continue;
         }
+        if last_was_cmd {
+            classes.insert("consecutive_commands_without_edit".into());
+            if prefer_check {
+                classes.insert("cross_pair_then_two_commands".into());
+            }
+        }
+        forced_cmds = forced_cmds.saturating_sub(1);
+        if cross.is_some() {
+            cross_cached = true;
+        }
         let cmd = if first_cmd {
             [Cmd::Build, Cmd::Check][d.weighted(&[7, 3])]
+        } else if prefer_check && forced_cmds == 0 && last_was_cmd {
+            // the second command after the pair replays from the cache; only `check` prints warnings
+            prefer_check = false;
+            [Cmd::Check, Cmd::Build][d.weighted(&[3, 1])]
         } else {
             // warnings are only printed by `check` (and by failing builds)
             let has_warn = p.modules().iter().any(|m| !p.module(*m).inj.is_empty());
@@ -536,6 +630,7 @@ fn one_history(d: &mut Draw, thorough: bool) -> Outcome {
             }
             Cmd::Test => {}
         }
+        last_was_cmd = true;
     }
     let _ = warm_cmds;
     let text = format!("{initial}\n{}", steps.join("\n"));
